@@ -46,6 +46,15 @@ Definition benign (w : shared_write) : bool := match sw_kind_of w with AppendGlo
 Example shared_writes_ok : forallb benign shared_writes = true.
 Proof. vm_compute. reflexivity. Qed.
 
+(* the lock protocol on the CURRENT source (minify.go): only the registration functions Add* take the write lock; the
+   entry points that look the registry up (Match, MinifyMimetype) take the read lock — the premise of no_writer_no_block *)
+Definition starts_with_Add (n : bytes) : bool := match n with 65 :: 100 :: 100 :: _ => true | _ => false end.
+Example registry_lock_protocol_ok :
+  forallb starts_with_Add registry_write_lock_funcs && negb (existsb starts_with_Add registry_read_lock_funcs) &&
+  existsb (beqb [77; 97; 116; 99; 104]) registry_read_lock_funcs &&
+  existsb (beqb [77; 105; 110; 105; 102; 121; 77; 105; 109; 101; 116; 121; 112; 101]) registry_read_lock_funcs = true.
+Proof. vm_compute. reflexivity. Qed.
+
 (* non-vacuity: two goroutines, three steps, two different schedules *)
 Example schedules_nonvacuous :
   run_sched unit nat (fun _ x => S x) tt [0; 10]%nat [0; 1; 0]%nat = run_sched unit nat (fun _ x => S x) tt [0; 10]%nat [1; 0; 0]%nat.
